@@ -2,6 +2,7 @@
 # builds ./modelrun from the extracted model (coq/Extract/model.ml{,i})
 set -e
 cd "$(dirname "$0")"
+rm -f modelrun
 cp ../coq/Extract/model.ml ../coq/Extract/model.mli .
 rm -f modelrun
 EXTRA=""
